@@ -143,6 +143,14 @@ def keys? (s : String) : Option KeyList :=
   | some (ks, []) => some (keyListOf ks)
   | _ => none
 
+/-- number of atomic constraints of a criteria value (top level), in rendering order -/
+def numAtoms : Crit → Nat
+  | .mk f nots ors =>
+    f.seqSets.length + f.uidSets.length + (if f.since ≠ 0 then 1 else 0) + (if f.before ≠ 0 then 1 else 0) +
+    (if f.sentSince ≠ 0 then 1 else 0) + (if f.sentBefore ≠ 0 then 1 else 0) + f.header.length + f.body.length +
+    f.text.length + f.flags.length + f.notFlags.length + (if f.larger ≠ 0 then 1 else 0) +
+    (if f.smaller ≠ 0 then 1 else 0) + (CritList.toList nots).length + (OrList.toList ors).length
+
 def firstDiff (f g : Msg → Bool) : Option Nat :=
   (msgUniverse.zipIdx.find? fun (m, _) => f m != g m).map (·.2)
 
@@ -171,11 +179,18 @@ def handle (f : List String) : String :=
       s!"{id}\t{boolStr (m == showCrit ci)}\t{orc}\t{m}"
     | _, _, _ => s!"{id}\t0\tfail:bad-line\t-"
   | id :: "msg" :: c :: rest =>
-    match crit? c, msg? rest.dropLast, rest.getLast? with
-    | some c, some m, some impl =>
+    -- rest = message fields, then "p<bits>" (the implementation's verdict on each atomic constraint
+    -- of the criteria taken alone), then the implementation's verdict on the whole criteria
+    match crit? c, msg? (rest.dropLast.dropLast), rest.dropLast.getLast?, rest.getLast? with
+    | some c, some m, some parts, some impl =>
       let r := boolStr (matchesC m c)
-      s!"{id}\t{boolStr (r == impl)}\tok\t{r}"
-    | _, _, _ => s!"{id}\t0\tfail:bad-line\t-"
+      let bits := parts.toList.drop 1
+      let orc :=
+        if bits.length != numAtoms c then "fail:bad-line"
+        else if (impl == "1") != bits.all (· == '1') then "fail:criteria-not-the-conjunction-of-its-constraints"
+        else "ok"
+      s!"{id}\t{boolStr (r == impl)}\t{orc}\t{r}"
+    | _, _, _, _ => s!"{id}\t0\tfail:bad-line\t-"
   | [id, "keys", ks, impl] =>
     match keys? ks with
     | none => s!"{id}\t0\tfail:bad-line\t-"
